@@ -252,6 +252,9 @@ func RunConcScenario(sc *Scenario) (vd *Verdict) {
 	if v, ok := sc.Knobs["maxSteps"]; ok {
 		s.MaxSteps = int(v)
 	}
+	if sc.Knob("preemptNsLock", 0) == 1 {
+		s.preempt["ns.lock"] = true
+	}
 	for _, d := range sc.Datasets {
 		s.SetName(h.Dataset(d), d)
 	}
